@@ -1269,18 +1269,25 @@ def refract_ref(vals, rg, rn, rres):
 
 @pred
 def aberrate_ref(vals, rg, rz, rres):
+    """phase = angle + sum over terms of Angle::new(mag * cos(3 sin t), PI): each term is its own forward
+    rotation (a negative effect is lifted by whole turns before it is added), so the TOTAL is checked"""
     g, r = vals[rg], vals[rres]
     if r[1] != g[1]: return 'aberration changed the magnitude'
     m = canon_msg(_A(r))
     if m: return m
-    tot = direction(_A(g))
+    tot = theta(_A(g))
     big = mp.mpf(0)
     for z in rz:
         Z = vals[z]
         e = v(Z[1]) * mp.cos(mp.sin(direction(_A(Z))) * 3)
+        if e < 0:
+            e = e + 2 * PI * mp.ceil(-e / (2 * PI))
         tot += e; big += abs(e)
-    tol = (len(rz) + 1) * 2 * TOL + 64 * EPS * (1 + big)
-    if angdiff(direction(_A(r)), _radians_dir(tot)) > tol: return 'aberrated phase %s, expected %s' % (mp.nstr(direction(_A(r)), 15), mp.nstr(_radians_dir(tot), 15))
+    tol = (len(rz) + 1) * 2 * TOL + 64 * EPS * (1 + big) + 4 * N.ulp(theta(_A(g)))
+    got = theta(_A(r))
+    near_turn = any(abs(v(vals[z][1]) * mp.cos(mp.sin(direction(_A(vals[z]))) * 3)) < mp.mpf('1e-9') for z in rz)
+    if abs(got - tot) > tol and not (near_turn and angdiff(direction(_A(r)), _radians_dir(tot)) <= tol):
+        return 'aberrated phase total %s, expected angle + sum of the per-term forward rotations = %s' % (mp.nstr(got, 17), mp.nstr(tot, 17))
     return None
 
 @pred
